@@ -6,12 +6,12 @@ package main
 // C07, C08, C14, C18.
 
 import (
-	"regexp"
 	"fmt"
 	"go/ast"
 	"go/constant"
 	"go/token"
 	"go/types"
+	"regexp"
 	"sort"
 	"strings"
 
